@@ -4,8 +4,8 @@ import RepeVerif.Driver.Common
 /-!
 Driver for the `torn` correspondence family (C05).
 
-op:   torn <idx> <ep 0..5> buf N rt N chunk N stall <at> <ms> fault <kind> <arg> w <kind><size>[q<qlen>],…
-        rec <tag:id,…|-> <tag:id:k|-> <tag,…|->
+op:   torn <idx> <ep 0..6> buf N rt N chunk N stall <at> <ms> fault <kind> <arg> [opt <k=v/…|->] w <kind><size>(<attr><n>)*,…
+        rec <tag:id[:L],…|-> <tag:id:k[:L]|-> <tag,…|->    (L: total length of a frame that is opaque to the model)
 obs:  <idx> frames <n> torn <k> after <none|bytes> len <L> fnv <hex16|->
 
 The part before `rec` is the generated fault script; the part after it is what the harness *recorded*
@@ -23,55 +23,115 @@ def claimed (ep : Nat) : Option Facts := (Gen.Torn.obs ep).map Obs.facts
 /-- digest (byte expansion) only up to this many bytes; must equal `DIGEST_CAP` of the harness -/
 def digestCap : Nat := 4 * 1024 * 1024
 
-/-- writer token `<kind><size>[q<qlen>]` -/
-def parseWriter (s : String) : Option (Char × Nat × Nat) :=
+/-- A writer of the script: kind, body size and the attributes that shape its frame
+(`q` query length, `f` query format, `g` body format, `y` notify byte, `u` path variant, `x` unrouted path;
+the other attributes — `i h t v z` — do not change the bytes of a frame that does appear). -/
+structure W where
+  kind : Char
+  size : Nat
+  qlen : Nat := 0
+  qf : Option Nat := none
+  bf : Option Nat := none
+  nb : Option Nat := none
+  pv : Nat := 0
+  xr : Bool := false
+
+/-- `<letter><digits>` pairs after the size -/
+partial def parseAttrs (cs : List Char) (w : W) : Option W :=
+  match cs with
+  | [] => some w
+  | c :: rest =>
+    let ds := rest.takeWhile Char.isDigit
+    let rest' := rest.dropWhile Char.isDigit
+    match (String.ofList ds).toNat? with
+    | none => none
+    | some v =>
+      if c = 'q' then parseAttrs rest' { w with qlen := v }
+      else if c = 'f' then parseAttrs rest' { w with qf := some v }
+      else if c = 'g' then parseAttrs rest' { w with bf := some v }
+      else if c = 'y' then parseAttrs rest' { w with nb := some v }
+      else if c = 'u' then parseAttrs rest' { w with pv := v }
+      else if c = 'x' then parseAttrs rest' { w with xr := v = 1 }
+      else if c = 'i' ∨ c = 'h' ∨ c = 't' ∨ c = 'v' ∨ c = 'z' then parseAttrs rest' w
+      else none
+
+/-- writer token `<kind><size>(<attr><n>)*` -/
+def parseWriter (s : String) : Option W :=
   match s.toList with
   | k :: rest =>
     if !k.isAlpha then none else
-    match (String.ofList rest).splitOn "q" with
-    | [a] => a.toNat?.map fun n => (k, n, 0)
-    | [a, b] => do let n ← a.toNat?; let q ← b.toNat?; pure (k, n, q)
-    | _ => none
+    let ds := rest.takeWhile Char.isDigit
+    match (String.ofList ds).toNat? with
+    | none => none
+    | some n => parseAttrs (rest.dropWhile Char.isDigit) { kind := k, size := n }
   | [] => none
 
-def isJson (k : Char) : Bool := k = 'j' ∨ k = 'J' ∨ k = 'y' ∨ k = 'Y' ∨ k = 'b'
+def isJson (k : Char) : Bool := k = 'j' ∨ k = 'J' ∨ k = 'y' ∨ k = 'Y' ∨ k = 'b' ∨ k = 'o'
 
 /-- pattern character `i` of a long query -/
 def qchar (tag i : Nat) : UInt8 :=
   let c := (tag * 7 + i + i / 61) % 36
   UInt8.ofNat (if c < 26 then 97 + c else 22 + c)
 
-/-- `<prefix><tag>`, padded with `/` and pattern characters up to `qlen` bytes when `qlen` is larger -/
-def queryOf (pre : String) (tag qlen : Nat) : Bytes :=
-  let base := (pre ++ toString tag).toUTF8.toList
-  if qlen ≤ base.length then base
-  else base ++ [47] ++ (List.range (qlen - base.length - 1)).map fun j => qchar tag (base.length + 1 + j)
+def padTo (tag qlen : Nat) (base : Bytes) : Bytes :=
+  base ++ (List.range (qlen - base.length)).map fun j => qchar tag (base.length + j)
+
+/-- query bytes: `<prefix><tag>` (padded with `/` and pattern characters up to `qlen` bytes), the non-ASCII
+variant `<prefix><tag>/é✓…`, or the empty path -/
+def queryOf (pre : String) (tag : Nat) (w : W) : Bytes :=
+  if w.pv = 2 then []
+  else if w.pv = 1 then padTo tag w.qlen ((pre ++ toString tag ++ "/é✓").toUTF8.toList)
+  else
+    let base := ((if w.xr then "/nope/" else pre) ++ toString tag).toUTF8.toList
+    if w.qlen ≤ base.length then base else padTo tag w.qlen (base ++ [47])
 
 def splitList (s : String) : List String := if s = "-" then [] else s.splitOn ","
 
 def natsOf (s : String) : Option (List Nat) := (s.splitOn ":").mapM (·.toNat?)
 
-/-- query prefix, notify flag and body format of the frame writer kind `k` produces on endpoint `ep`
+/-- query prefix, notify flag and default body format of the frame writer kind `k` produces on endpoint `ep`
 (clients: c/T call_with_formats, n/t notify_with_formats, m call_message, j/y notify_json, J/Y/b call_json,
-f/F forward_message (async client); servers: r response, p pushed notify, B notify through `PeerRegistry::broadcast_notify_raw`) -/
+f/F forward_message (async client); servers: r response, o response of an off-reader route, p pushed notify,
+B notify through `PeerRegistry::broadcast_notify_raw`, h notify pushed from the connect hook) -/
 def shape (ep : Nat) (k : Char) : Option (String × Bool × Nat) :=
   if ep ≤ 2 then
     (if k = 'c' ∨ k = 'T' ∨ k = 'm' then some ("/t/", false, 0)
      else if k = 'n' ∨ k = 't' then some ("/t/", true, 0)
      else if k = 'j' ∨ k = 'y' then some ("/t/", true, 2)
      else if k = 'J' ∨ k = 'Y' ∨ k = 'b' then some ("/t/", false, 2)
+     else if k = 'v' then some ("/t/", true, 1)
+     else if k = 'V' then some ("/t/", false, 1)
      else if k = 'f' ∧ ep = 1 then some ("/t/", true, 0)
      else if k = 'F' ∧ ep = 1 then some ("/t/", false, 0)
      else none)
   else
-    (if k = 'r' then some ("/g/", false, 0) else if (k = 'p' ∨ k = 'B') ∧ ep = 5 then some ("/p/", true, 0) else none)
+    (if k = 'r' then some ("/g/", false, 0)
+     else if k = 'o' then some ("/o/", false, 2)
+     else if (k = 'p' ∨ k = 'B' ∨ k = 'h') ∧ ep = 5 then some ("/p/", true, 0) else none)
 
-def frameOf (ep : Nat) (ws : List (Char × Nat × Nat)) (tag id : Nat) : Option LFrame := do
-  let (k, size, qlen) ← ws[tag]?
-  let (pre, notify, bfmt) ← shape ep k
-  if (isJson k ∧ size < 2) ∨ (k = 'm' ∧ size ≠ 0) then none
-  pure { id := id, notify := notify, query := queryOf pre tag qlen, bfmt := bfmt, json := isJson k,
-         tag := tag, blen := size }
+/-- The frame of writer `tag` (tags from 100 on: the notify a handler pushes while serving request `tag-100`).
+`opaque = some L`: a frame of `L` bytes whose content the model does not produce (error response, BEVE body,
+notify byte other than 0/1); only its length matters and no digest is printed. -/
+def frameOf (ep : Nat) (ws : List W) (tag id : Nat) (opq : Option Nat := none) : Option LFrame := do
+  if tag ≥ 100 then
+    pure { id := id, notify := true, query := queryOf "/p/" tag { kind := 'p', size := 64 }, qfmt := 1, bfmt := 0,
+           json := false, tag := tag, blen := 64 }
+  else
+  let w ← ws[tag]?
+  let (pre, notify, bfmt) ← shape ep w.kind
+  if (isJson w.kind ∧ w.size < 2) ∨ (w.kind = 'm' ∧ w.size ≠ 0) then none
+  let clientSide := ep ≤ 2
+  let q := queryOf pre tag w
+  let notify := if (w.kind = 'f' ∨ w.kind = 'F') then (match w.nb with | some 1 => true | some _ => false | none => notify) else notify
+  let fr : LFrame :=
+    { id := id, notify := notify, query := q, qfmt := if clientSide then w.qf.getD 1 else 1,
+      bfmt := if clientSide ∨ w.kind = 'r' then w.bf.getD bfmt else bfmt, json := isJson w.kind, tag := tag, blen := w.size }
+  match opq with
+  | none => pure fr
+  | some L =>
+    if 48 + q.length ≤ L then pure { fr with blen := L - 48 - q.length }
+    else if 48 ≤ L then pure { fr with query := [], blen := L - 48 }
+    else none
 
 /-- progress events that write `total` bytes of writer `w`'s frame in a few uneven fragments -/
 def fragments (w total : Nat) : List (Ev LFrame) :=
@@ -84,19 +144,19 @@ def fragments (w total : Nat) : List (Ev LFrame) :=
 def hex16 (v : UInt64) : String :=
   String.ofList ((List.range 16).map fun i => hexDigit ((v.toNat / 16 ^ (15 - i)) % 16))
 
-def runCase (idx : String) (ep : Nat) (f : Facts) (ws : List (Char × Nat × Nat)) (frames : List (Nat × Nat))
-    (torn : Option (Nat × Nat × Nat)) (attempted : List Nat) : Option String := do
+def runCase (idx : String) (ep : Nat) (f : Facts) (ws : List W) (frames : List (Nat × Nat × Option Nat))
+    (torn : Option (Nat × Nat × Nat × Option Nat)) (attempted : List Nat) : Option String := do
   -- whole frames, in the recorded order
   let mut evs : List (Ev LFrame) := []
-  for (tag, id) in frames do
-    let fr ← frameOf ep ws tag id
+  for (tag, id, opq) in frames do
+    let fr ← frameOf ep ws tag id opq
     evs := evs ++ [.submit tag fr] ++ fragments tag fr.len
   let c1 := run LFrame.len f evs Conn.init
   -- the interrupted frame: `k` bytes, then the interrupt
   let c2 ← match torn with
     | none => some c1
-    | some (tag, id, k) => do
-      let fr ← frameOf ep ws tag id
+    | some (tag, id, k, opq) => do
+      let fr ← frameOf ep ws tag id opq
       some (run LFrame.len f ([.submit tag fr] ++ fragments tag k ++ [.interrupt tag]) c1)
   -- every other submitted frame is attempted afterwards
   let mut later : List (Ev LFrame) := []
@@ -108,32 +168,39 @@ def runCase (idx : String) (ep : Nat) (f : Facts) (ws : List (Char × Nat × Nat
   let len := c3.wireLen
   let tornLen := len - (c3.done.map LFrame.len).sum
   let after := if c3.wireLen = c2.wireLen then "none" else "bytes"
-  let digest := if len ≤ digestCap then hex16 (fnv1a (c3.streamWith LFrame.bytes)) else "-"
+  let isOpq := frames.any (fun x => x.2.2.isSome) || (match torn with | some (_, _, _, some _) => true | _ => false)
+  let digest := if len ≤ digestCap ∧ !isOpq then hex16 (fnv1a (c3.streamWith LFrame.bytes)) else "-"
   pure (joinSp [idx, "frames", toString c3.done.length, "torn", toString tornLen, "after", after,
     "len", toString len, "fnv", digest])
+
+def runLine (idx ep wl fr tn att0 : String) : String :=
+  if fr = "skipped" then idx ++ " skipped" else
+  let r : Option String := do
+    let ep ← ep.toNat?
+    let f ← claimed ep
+    let wsl ← (wl.splitOn ",").mapM parseWriter
+    let frames ← (splitList fr).mapM fun s => do
+      match ← natsOf s with
+      | [t, id] => some (t, id, none)
+      | [t, id, l] => some (t, id, some l)
+      | _ => none
+    let torn ← if tn = "-" then some none else do
+      match ← natsOf tn with
+      | [t, id, k] => some (some (t, id, k, none))
+      | [t, id, k, l] => some (some (t, id, k, some l))
+      | _ => none
+    let att ← (splitList att0).mapM (·.toNat?)
+    runCase idx ep f wsl frames torn att
+  match r with
+  | some s => s
+  | none => idx ++ " bad-op"
 
 def step (st : Unit) (ws : List String) : Unit × String :=
   match ws with
   | "torn" :: idx :: ep :: "buf" :: _ :: "rt" :: _ :: "chunk" :: _ :: "stall" :: _ :: _ :: "fault" :: _ :: _
-      :: "w" :: wl :: "rec" :: fr :: tn :: att0 :: [] =>
-    if fr = "skipped" then (st, idx ++ " skipped") else
-    let r : Option String := do
-      let ep ← ep.toNat?
-      let f ← claimed ep
-      let wsl ← (wl.splitOn ",").mapM parseWriter
-      let frames ← (splitList fr).mapM fun s => do
-        match ← natsOf s with
-        | [t, id] => some (t, id)
-        | _ => none
-      let torn ← if tn = "-" then some none else do
-        match ← natsOf tn with
-        | [t, id, k] => some (some (t, id, k))
-        | _ => none
-      let att ← (splitList att0).mapM (·.toNat?)
-      runCase idx ep f wsl frames torn att
-    match r with
-    | some s => (st, s)
-    | none => (st, idx ++ " bad-op")
+      :: "opt" :: _ :: "w" :: wl :: "rec" :: fr :: tn :: att0 :: [] => (st, runLine idx ep wl fr tn att0)
+  | "torn" :: idx :: ep :: "buf" :: _ :: "rt" :: _ :: "chunk" :: _ :: "stall" :: _ :: _ :: "fault" :: _ :: _
+      :: "w" :: wl :: "rec" :: fr :: tn :: att0 :: [] => (st, runLine idx ep wl fr tn att0)
   | _ :: idx :: _ => (st, idx ++ " bad-op")
   | _ => (st, "bad-op")
 
